@@ -393,6 +393,7 @@ var c07Alphabet = []c07Req{
 	{Name: "doh-p1-blocked", Client: "10.4.0.1", Host: "blocked.test.", QType: dns.TypeA, EDNS: true, DoH: true, Path: "/dns-query/dev1"},
 	{Name: "doh-anon-clean", Client: "10.4.0.2", Host: "clean.test.", QType: dns.TypeA, DoH: true, Path: "/dns-query"},
 	{Name: "p1-clean-cd", Client: "10.1.0.1", Host: "clean.test.", QType: dns.TypeA, CD: true},
+	{Name: "p2-danger-txt", Client: "10.2.0.1", Host: "danger.test.", QType: dns.TypeTXT},
 }
 
 func (q c07Req) wire(id uint16) []byte {
